@@ -28,6 +28,12 @@ def Err.isValueError : Err → Bool
 
 abbrev R := Except Err
 
+instance [DecidableEq ε] [DecidableEq α] : DecidableEq (Except ε α)
+  | .ok a, .ok b => if h : a = b then isTrue (by rw [h]) else isFalse (by intro h'; cases h'; exact h rfl)
+  | .error a, .error b => if h : a = b then isTrue (by rw [h]) else isFalse (by intro h'; cases h'; exact h rfl)
+  | .ok _, .error _ => isFalse (by intro h; cases h)
+  | .error _, .ok _ => isFalse (by intro h; cases h)
+
 /-- Python `l[a:b]` with possibly negative indices -/
 def pySlice (l : List α) (a b : Int) : List α :=
   let n : Int := l.length
